@@ -53,16 +53,22 @@ theorem enforced_window_is_advertised (f f' : Inflow) (n r : Int) (h : f.add n =
 
 /-! ## Part B -/
 
+/-- The branch of `processData` a DATA frame takes (server and Transport): not delivered and
+charged to the connection window only (`connOnly`), empty, or delivered. -/
+def ConnOnly (st : StreamSt) (len L : Int) : Prop :=
+  st.status ≠ .open_ ∨ (st.declCL ≠ -1 ∧ st.bodyBytes + len > st.declCL) ∨ (L ≠ 0 ∧ st.isHead = true ∧ len > 0)
+
+instance (st : StreamSt) (len L : Int) : Decidable (ConnOnly st len L) := by unfold ConnOnly; exact inferInstance
+
 /-- Which DATA frames the monitor classifies as beyond the advertised window: the frame is a
 DATA frame on a known stream and its flow-controlled length exceeds the connection window,
-or — when the stream is open, within its declared Content-Length and the frame non-empty —
-the stream window. -/
-theorem excess_iff (m : Mon) (sid : Nat) (len pad : Int) (es : Bool) (sid' : Nat) :
-    (dataAct m sid len pad es).expectFC = some sid' ↔
-      sid' = sid ∧ ¬ (len < 0 ∨ pad < -1) ∧ ∃ st, findStream m.streams sid = some st ∧
-        (if st.status = .open_ ∧ ¬ (st.declCL ≠ -1 ∧ st.bodyBytes + len > st.declCL)
-         then flowLen len pad ≠ 0 ∧ (flowLen len pad > m.conn ∨ flowLen len pad > st.win)
-         else flowLen len pad > m.conn) := by
+or — when it is delivered to an open stream — the stream window. The error is expected on
+the stream for a server, on the connection (stream 0) for a Transport. -/
+theorem excess_iff (m : Mon) (sid : Nat) (len pad : Int) (es : Bool) (t : Nat) :
+    (dataAct m sid len pad es).expectFC = some t ↔
+      t = fcTarget m sid ∧ ¬ (len < 0 ∨ pad < -1) ∧ ∃ st, findStream m.streams sid = some st ∧
+        (if ConnOnly st len (flowLen len pad) then flowLen len pad > m.conn
+         else flowLen len pad ≠ 0 ∧ (flowLen len pad > m.conn ∨ flowLen len pad > st.win)) := by
   unfold dataAct
   by_cases hv : len < 0 ∨ pad < -1
   · simp [hv]
@@ -71,23 +77,67 @@ theorem excess_iff (m : Mon) (sid : Nat) (len pad : Int) (es : Bool) (sid' : Nat
     | none => simp
     | some st =>
       simp only [Option.some.injEq, exists_eq_left']
+      have co : ∀ (_ : ConnOnly st len (flowLen len pad)),
+          ((connOnlyAct m sid (flowLen len pad)).expectFC = some t ↔
+            t = fcTarget m sid ∧ (if ConnOnly st len (flowLen len pad) then flowLen len pad > m.conn
+              else flowLen len pad ≠ 0 ∧ (flowLen len pad > m.conn ∨ flowLen len pad > st.win))) := by
+        intro hc
+        unfold connOnlyAct
+        by_cases hx : flowLen len pad > m.conn
+        · rw [if_pos hx, if_pos hc]
+          constructor
+          · intro h; exact ⟨(Option.some.inj h).symm, hx⟩
+          · intro h; exact congrArg some h.1.symm
+        · rw [if_neg hx, if_pos hc]
+          constructor
+          · intro h; cases h
+          · intro h; exact absurd h.2 hx
       cases hs : st.status with
-      | closed =>
-        by_cases hc : flowLen len pad > m.conn <;> simp [hc, eq_comm]
-      | halfRemote =>
-        by_cases hc : flowLen len pad > m.conn <;> simp [hc, eq_comm]
+      | closed => exact co (Or.inl (by simp [hs]))
+      | halfRemote => exact co (Or.inl (by simp [hs]))
+      | preHeaders => exact co (Or.inl (by simp [hs]))
       | open_ =>
+        simp only
         by_cases hcl : st.declCL ≠ -1 ∧ st.bodyBytes + len > st.declCL
-        · by_cases hc : flowLen len pad > m.conn <;> simp [hcl, hc, eq_comm]
-        · by_cases h0 : flowLen len pad = 0
-          · simp [hcl, h0]
-          · by_cases hx : flowLen len pad > m.conn ∨ flowLen len pad > st.win
-            · simp [hcl, h0, hx, eq_comm]
-            · simp [hcl, h0, hx]
+        · rw [if_pos hcl]
+          exact co (Or.inr (Or.inl hcl))
+        · rw [if_neg hcl]
+          by_cases h0 : flowLen len pad = 0
+          · have hn : ¬ ConnOnly st len (flowLen len pad) := by
+              unfold ConnOnly; simp [hs, hcl, h0]
+            rw [if_pos h0, if_neg hn]
+            constructor
+            · intro h; cases h
+            · intro h; exact absurd h0 h.2.1
+          · rw [if_neg h0]
+            by_cases hh : st.isHead = true ∧ len > 0
+            · rw [if_pos hh]
+              exact co (Or.inr (Or.inr ⟨h0, hh.1, hh.2⟩))
+            · have hn : ¬ ConnOnly st len (flowLen len pad) := by
+                unfold ConnOnly
+                simp only [hs, ne_eq, not_true_eq_false, false_or, hcl, not_and]
+                intro _ h1 h2
+                exact hh ⟨h1, h2⟩
+              rw [if_neg hh, if_neg hn]
+              by_cases hx : flowLen len pad > m.conn ∨ flowLen len pad > st.win
+              · rw [if_pos hx]
+                constructor
+                · intro h; exact ⟨(Option.some.inj h).symm, h0, hx⟩
+                · intro h; exact congrArg some h.1.symm
+              · rw [if_neg hx]
+                constructor
+                · intro h; simp [acceptAct] at h
+                · intro h; exact absurd h.2.2 hx
 
 /-- A refused frame changes nothing: no window moves and no byte is accepted for delivery. -/
-theorem refused_changes_nothing (m : Mon) (sid : Nat) (len pad : Int) (es : Bool) (sid' : Nat)
-    (h : (dataAct m sid len pad es).expectFC = some sid') : (dataAct m sid len pad es).m = m := by
+theorem refused_changes_nothing (m : Mon) (sid : Nat) (len pad : Int) (es : Bool) (t : Nat)
+    (h : (dataAct m sid len pad es).expectFC = some t) : (dataAct m sid len pad es).m = m := by
+  have co : (connOnlyAct m sid (flowLen len pad)).expectFC = some t →
+      (connOnlyAct m sid (flowLen len pad)).m = m := by
+    unfold connOnlyAct
+    by_cases hx : flowLen len pad > m.conn
+    · rw [if_pos hx]; intro _; rfl
+    · rw [if_neg hx]; intro h; cases h
   unfold dataAct at h ⊢
   by_cases hv : len < 0 ∨ pad < -1
   · simp [hv] at h
@@ -97,45 +147,56 @@ theorem refused_changes_nothing (m : Mon) (sid : Nat) (len pad : Int) (es : Bool
     | some st =>
       simp only [hf] at h ⊢
       cases hs : st.status with
-      | closed =>
-        simp only [hs] at h ⊢
-        by_cases hc : flowLen len pad > m.conn <;> simp [hc] at h ⊢
-      | halfRemote =>
-        simp only [hs] at h ⊢
-        by_cases hc : flowLen len pad > m.conn <;> simp [hc] at h ⊢
+      | closed => simp only [hs] at h ⊢; exact co h
+      | halfRemote => simp only [hs] at h ⊢; exact co h
+      | preHeaders => simp only [hs] at h ⊢; exact co h
       | open_ =>
         simp only [hs] at h ⊢
         by_cases hcl : st.declCL ≠ -1 ∧ st.bodyBytes + len > st.declCL
-        · by_cases hc : flowLen len pad > m.conn <;> simp [hcl, hc] at h ⊢
-        · by_cases h0 : flowLen len pad = 0
-          · simp [hcl, h0] at h
-          · by_cases hx : flowLen len pad > m.conn ∨ flowLen len pad > st.win
-            · simp [hcl, h0, hx]
-            · simp [hcl, h0, hx] at h
+        · rw [if_pos hcl] at h ⊢; exact co h
+        · rw [if_neg hcl] at h ⊢
+          by_cases h0 : flowLen len pad = 0
+          · rw [if_pos h0] at h; cases h
+          · rw [if_neg h0] at h ⊢
+            by_cases hh : st.isHead = true ∧ len > 0
+            · rw [if_pos hh] at h ⊢; exact co h
+            · rw [if_neg hh] at h ⊢
+              by_cases hx : flowLen len pad > m.conn ∨ flowLen len pad > st.win
+              · rw [if_pos hx]
+              · rw [if_neg hx] at h; simp [acceptAct] at h
 
-/-- On a live connection a non-reset line is handled by `liveLine`. -/
+/-- On a live connection a line that does not open a connection is handled by `liveLine`. -/
 theorem lineStep_live (m : Mon) (act : Act) (obs : List Obs) (hs : m.started = true) (hd : m.dead = false)
-    (hr : ∀ c s, act ≠ .reset c s) :
+    (hr : ∀ c s, act ≠ .reset c s ∧ act ≠ .treset c s) :
     lineStep m ⟨act, obs⟩ = liveLine m (effAct act obs) obs := by
   unfold lineStep
   cases act with
-  | reset c s => exact absurd rfl (hr c s)
+  | reset c s => exact absurd rfl (hr c s).1
+  | treset c s => exact absurd rfl (hr c s).2
   | _ => simp [hs, hd]
 
 /-- **Excess ⇒ FLOW_CONTROL_ERROR.** If the monitor accepts a DATA line whose frame is beyond
-an advertised window, the line contains RST_STREAM(FLOW_CONTROL_ERROR) on that stream. -/
-theorem excess_is_refused (m m' : Mon) (sid : Nat) (len pad : Int) (es : Bool) (obs : List Obs) (sid' : Nat)
+an advertised window, the line reports FLOW_CONTROL_ERROR: RST_STREAM on that stream (server),
+or a connection error — GOAWAY or the application-visible ConnectionError — (Transport). -/
+theorem excess_is_refused (m m' : Mon) (sid : Nat) (len pad : Int) (es : Bool) (obs : List Obs) (t : Nat)
     (hs : m.started = true) (hd : m.dead = false)
     (h : lineStep m ⟨.data sid len pad es, obs⟩ = .ok m')
-    (hx : (dataAct m sid len pad es).expectFC = some sid') :
-    Obs.rst sid' errFlowControl ∈ obs := by
+    (hx : (dataAct m sid len pad es).expectFC = some t) :
+    hasFC t obs = true ∧
+    (t ≠ 0 → Obs.rst t errFlowControl ∈ obs) ∧
+    (t = 0 → Obs.goaway errFlowControl ∈ obs ∨ Obs.connerr errFlowControl ∈ obs) := by
   rw [lineStep_live m _ obs hs hd (by intro c s; simp)] at h
-  have hm := refused_changes_nothing m sid len pad es sid' hx
+  have hm := refused_changes_nothing m sid len pad es t hx
   unfold liveLine at h
   simp only [effAct, actStep, hx, hm, hd] at h
-  by_cases hc : hasFC sid' obs = true
-  · simpa [hasFC] using hc
-  · simp [hc] at h
+  have hc : hasFC t obs = true := by
+    by_cases hc : hasFC t obs = true
+    · exact hc
+    · simp [hc] at h
+  refine ⟨hc, fun ht => ?_, fun ht => ?_⟩
+  · simpa [hasFC, ht] using hc
+  · subst ht
+    simpa [hasFC] using hc
 
 theorem finishLine_dead (act : Act) (m m' : Mon) (h : finishLine act m = .ok m') : m'.dead = m.dead := by
   unfold finishLine at h
@@ -146,15 +207,18 @@ theorem finishLine_dead (act : Act) (m m' : Mon) (h : finishLine act m = .ok m')
       by_cases hneg : m.configured - m.conn < 0 <;> simp [hneg] at h
   · cases h; rfl
 
-/-- **Within the window ⇒ never FLOW_CONTROL_ERROR.** If an accepted line on a live connection
-shows RST_STREAM(FLOW_CONTROL_ERROR) on stream `sid`, the line is a DATA frame that the
-monitor classified as beyond an advertised window, on that very stream; and no accepted line
-shows GOAWAY(FLOW_CONTROL_ERROR). -/
+/-- **Within the window ⇒ never FLOW_CONTROL_ERROR.** On an accepted line that leaves the
+connection alive: RST_STREAM(FLOW_CONTROL_ERROR) on `sid` appears only if the line is a DATA
+frame classified as beyond an advertised window with the error expected on `sid`; and unless a
+connection-level report is expected (Transport excess), there is no GOAWAY / ConnectionError
+with FLOW_CONTROL_ERROR. (Lines on which the connection dies are covered observation by
+observation: `Proofs.FlowMon.obsStep_fc`.) -/
 theorem fc_only_on_excess (m m' : Mon) (act : Act) (obs : List Obs) (sid : Nat)
-    (hs : m.started = true) (hd : m.dead = false) (hr : ∀ c s, act ≠ .reset c s)
+    (hs : m.started = true) (hd : m.dead = false) (hr : ∀ c s, act ≠ .reset c s ∧ act ≠ .treset c s)
     (h : lineStep m ⟨act, obs⟩ = .ok m') (hd' : m'.dead = false) :
     (Obs.rst sid errFlowControl ∈ obs → (actStep m (effAct act obs)).expectFC = some sid) ∧
-    Obs.goaway errFlowControl ∉ obs := by
+    ((actStep m (effAct act obs)).expectFC ≠ some 0 →
+        Obs.goaway errFlowControl ∉ obs ∧ Obs.connerr errFlowControl ∉ obs) := by
   rw [lineStep_live m act obs hs hd hr] at h
   unfold liveLine at h
   simp only at h
@@ -169,7 +233,8 @@ theorem fc_only_on_excess (m m' : Mon) (act : Act) (obs : List Obs) (sid : Nat)
       simp only [he] at h
       by_cases hc : hasFC s0 obs = true
       · simp only [hc, Bool.not_true] at h
-        exact ⟨fun hmem => obsFold_fc _ _ _ _ h hd' sid hmem, obsFold_no_goaway_fc _ _ _ _ h hd'⟩
+        exact ⟨fun hmem => obsFold_fc _ _ _ _ h hd' sid hmem,
+               fun hne => obsFold_no_conn_fc _ _ _ _ h hd' hne⟩
       · simp [hc] at h
     | none =>
       simp only [he] at h
@@ -178,7 +243,7 @@ theorem fc_only_on_excess (m m' : Mon) (act : Act) (obs : List Obs) (sid : Nat)
       | ok m1 =>
         simp only [hf] at h
         have hd1 : m1.dead = false := by rw [← finishLine_dead _ m1 m' h]; exact hd'
-        refine ⟨fun hmem => ?_, obsFold_no_goaway_fc _ _ _ _ hf hd1⟩
+        refine ⟨fun hmem => ?_, fun _ => obsFold_no_conn_fc _ _ _ _ hf hd1 (by simp)⟩
         have := obsFold_fc _ _ _ _ hf hd1 sid hmem
         cases this
 
@@ -207,6 +272,21 @@ example : run Mon.init (boundaryTrace.take 3 ++ [⟨.data 1 1 (-1) false, []⟩]
 
 /-- a FLOW_CONTROL_ERROR for a frame within the window is rejected -/
 example : run Mon.init (boundaryTrace.take 2 ++ [⟨.data 1 30000 (-1) false, [.rst 1 3]⟩]) =
+    .error "flow-control-error-within-window" := rfl
+
+/-- Transport: exactly the stream window is accepted; one more byte is a connection error. -/
+def transportBoundary : List Line :=
+  [⟨.treset 100000 20000, [.set 20000, .wu 0 100000, .other]⟩,
+   ⟨.req 3 0, []⟩,
+   ⟨.rhdr 3 false, []⟩,
+   ⟨.data 3 16384 (-1) false, []⟩,
+   ⟨.data 3 3616 (-1) false, []⟩]
+
+example : ∃ m, run Mon.init transportBoundary = .ok m ∧ m.dead = false := ⟨_, rfl, rfl⟩
+example : ∃ m, run Mon.init (transportBoundary ++ [⟨.data 3 1 (-1) false, [.connerr 3, .closed]⟩]) = .ok m ∧ m.dead = true :=
+  ⟨_, rfl, rfl⟩
+example : run Mon.init (transportBoundary ++ [⟨.data 3 1 (-1) false, [.closed]⟩]) = .error "excess-data-not-refused" := rfl
+example : run Mon.init (transportBoundary.take 4 ++ [⟨.data 3 3616 (-1) false, [.connerr 3, .closed]⟩]) =
     .error "flow-control-error-within-window" := rfl
 
 end NetVerif.Proofs.C11
